@@ -364,6 +364,12 @@ fn scalar() -> impl Strategy<Value = f64> {
         Just(-0.3),
         Just(1.0 / 3.0),
         (-64i32..=64).prop_map(|k| k as f64 / 16.0),
+        // far below machine epsilon, far above: "all scalars" (a comparison with eps instead of 0 shows here)
+        Just(1e-17),
+        Just(-3e-20),
+        Just(1e-300),
+        Just(1099511627776.0),
+        Just(-1.0 / 1099511627776.0),
     ]
 }
 
@@ -420,6 +426,8 @@ pub fn exhaustive(nmax: usize) -> Vec<Case> {
         Op::SubAssignRef,
         Op::CompAdd(0.0),
         Op::CompAdd(0.3),
+        Op::CompAdd(1e-17),
+        Op::CompSub(-3e-20),
         Op::CompSub(0.0),
         Op::CompSub(-1.5),
         Op::CompMul(0.0),
